@@ -396,22 +396,23 @@ SPEC = {
     "min_distinct": 400,
     "min_evaluations": {"quick": 192, "thorough": 2100},
     "min_counters": {
-        "a_fetches_overlapping_decode": 10000,
-        "a_fetches_returning_inside_event_handler_gap": 1000,
-        "a_channel_switch_requests": 1000,
-        "a_channel_switch_requests_during_decode": 300,
-        "a_caption_events": 10000,
-        "a_network_events": 500,
-        "a_trigger_events": 20,
-        "a_ttx_page_events": 5000,
-        "a_ttx_events_header_same": 2000,
-        "a_ttx_events_header_inconclusive": 500,
-        "a_ttx_header_text_network_changes": 200,
-        "a_time_stamp_gaps": 1000,
-        "a_ttx_rolling_pages_ended_within_40_frames_of_gap_damaged_header": 300,
-        "a_page_state_changes": 10000,
-        "b_decodes_overlapping_a_toggle": 5000,
-        "b_toggles": 20000,
-        "b_check_services_calls": 3000,
+        "a_fetches_overlapping_decode": 300000,
+        "a_fetches_returning_inside_event_handler_gap": 30000,
+        "a_fetches_with_several_candidate_snapshots": 4000,
+        "a_channel_switch_requests": 3000,
+        "a_channel_switch_requests_during_decode": 1500,
+        "a_caption_events": 30000,
+        "a_network_events": 4000,
+        "a_trigger_events": 100,
+        "a_ttx_page_events": 20000,
+        "a_ttx_events_header_same": 10000,
+        "a_ttx_events_header_inconclusive": 2500,
+        "a_ttx_header_text_network_changes": 600,
+        "a_time_stamp_gaps": 2500,
+        "a_ttx_rolling_pages_ended_within_40_frames_of_gap_damaged_header": 1000,
+        "a_page_state_changes": 20000,
+        "b_decodes_overlapping_a_toggle": 10000,
+        "b_toggles": 40000,
+        "b_check_services_calls": 10000,
     },
 }
